@@ -314,6 +314,7 @@ type c14Stats struct {
 	keys        map[string]bool
 	pairs       int
 	pairsB      int
+	coldPairs   int
 	shapes      map[string]bool
 	mapNonCanon int
 	mapRanges   int
@@ -358,12 +359,24 @@ func c14AnswerOf(res *simrt.CallResult) c14Answer {
 
 // c14Judge evaluates one executed history. It returns a violation class and
 // detail ("" if the property held) and updates the statistics.
-func c14Judge(h *c14Hist, conc *simrt.History, keys []*c14Key, res []simrt.CallResult, fatal string, st *c14Stats) (string, string) {
+func c14Judge(h *c14Hist, conc *simrt.History, keys []*c14Key, res []simrt.CallResult, fatal string, cold map[int]*simrt.CallResult, st *c14Stats) (string, string) {
 	if fatal != "" {
 		return "worker-died", fatal
 	}
 	if len(res) != len(conc.Steps) {
 		return "worker-died", fmt.Sprintf("%d results for %d steps", len(res), len(conc.Steps))
+	}
+	// fresh-process oracle: the same call, in the same environment state, as the
+	// only call of a fresh process must give the same answer
+	for _, i := range sortedIntKeys(cold) {
+		if st != nil {
+			st.coldPairs++
+		}
+		hot, c := c14AnswerOf(&res[i]), c14AnswerOf(cold[i])
+		if hot != c {
+			return "fresh-process-different-answer", fmt.Sprintf("program %s target %s: step %d of the history answered %s, the same call as the only call of a fresh process (same file-system state) answered %s",
+				keys[i].Prog, conc.Steps[i].Target, i, hot, c) + c14Describe(conc, max(0, i-6), i)
+		}
 	}
 	firstA := map[string]int{}
 	firstB := map[string]int{}
@@ -460,6 +473,75 @@ func c14Describe(conc *simrt.History, j, i int) string {
 	return fmt.Sprintf(" | first=%s second=%s between=[%s]", d(&conc.Steps[j]), d(&conc.Steps[i]), strings.Join(between, " "))
 }
 
+func sortedIntKeys[V any](m map[int]V) []int {
+	ks := make([]int, 0, len(m))
+	for k := range m {
+		ks = append(ks, k)
+	}
+	sort.Ints(ks)
+	return ks
+}
+
+// c14ColdSteps selects the concrete transpile steps that are re-executed as
+// the only call of a fresh process: every call that directly follows an
+// environment change, every third call, and the last four.
+func c14ColdSteps(conc *simrt.History) []int {
+	out := []int{}
+	nT := 0
+	total := 0
+	for i := range conc.Steps {
+		if conc.Steps[i].Kind == "transpile" {
+			total++
+		}
+	}
+	for i := range conc.Steps {
+		if conc.Steps[i].Kind != "transpile" {
+			continue
+		}
+		nT++
+		if (i > 0 && conc.Steps[i-1].Kind != "transpile") || nT%3 == 0 || nT > total-4 {
+			out = append(out, i)
+		}
+	}
+	return out
+}
+
+// c14Cold builds the projection of the history on step i: all environment
+// steps before i, then call i alone (no decoy events during the call are
+// dropped: they are part of the call).
+func c14Cold(conc *simrt.History, i int) *simrt.History {
+	p := &simrt.History{World: conc.World}
+	for k := 0; k < i; k++ {
+		if conc.Steps[k].Kind != "transpile" {
+			p.Steps = append(p.Steps, conc.Steps[k])
+		}
+	}
+	st := conc.Steps[i]
+	st.Obj = 0
+	p.Steps = append(p.Steps, st)
+	return p
+}
+
+// c14RunCold executes the cold projections of the selected steps.
+func c14RunCold(env *Env, conc *simrt.History, steps []int) (map[int]*simrt.CallResult, error) {
+	out := map[int]*simrt.CallResult{}
+	for _, i := range steps {
+		p := c14Cold(conc, i)
+		res, fatal, err := env.RunHistory(p)
+		if err != nil {
+			return nil, err
+		}
+		if fatal != "" || len(res) != len(p.Steps) {
+			out[i] = &simrt.CallResult{Kind: "fatal", Err: fatal}
+			continue
+		}
+		r := res[len(res)-1]
+		r.Trace = nil
+		out[i] = &r
+	}
+	return out, nil
+}
+
 func c14Shape(h *c14Hist) string {
 	var sb strings.Builder
 	for _, s := range h.Steps {
@@ -506,6 +588,7 @@ func checkC14(r *Run) error {
 			keys  []*c14Key
 			res   []simrt.CallResult
 			fatal string
+			cold  map[int]*simrt.CallResult
 			err   error
 		}
 		outs := make([]out, batch)
@@ -513,6 +596,9 @@ func checkC14(r *Run) error {
 			o := &outs[i]
 			o.conc, o.keys = hs[i].materialise(r.Env)
 			o.res, o.fatal, o.err = r.Env.RunHistory(o.conc)
+			if o.err == nil && o.fatal == "" && len(o.res) == len(o.conc.Steps) {
+				o.cold, o.err = c14RunCold(r.Env, o.conc, c14ColdSteps(o.conc))
+			}
 		})
 		for i := range outs {
 			if outs[i].err != nil {
@@ -541,7 +627,7 @@ func checkC14(r *Run) error {
 					}
 				}
 			}
-			class, detail := c14Judge(h, o.conc, o.keys, o.res, o.fatal, st)
+			class, detail := c14Judge(h, o.conc, o.keys, o.res, o.fatal, o.cold, st)
 			if len(st.samples) < 3 && st.histories%41 == 1 {
 				st.samples = append(st.samples, map[string]any{"shape": c14Shape(h), "programs": h.Progs, "closures": h.Closures, "mount0": h.Mount0, "steps": h.Steps[:min(len(h.Steps), 14)], "steps_total": len(h.Steps)})
 			}
@@ -601,6 +687,7 @@ func checkC14(r *Run) error {
 		"distinct_keys":          len(st.keys),
 		"cross_checked_pairs_A":  st.pairs,
 		"cross_checked_pairs_B":  st.pairsB,
+		"fresh_process_pairs":    st.coldPairs,
 		"distinct_interleavings": len(st.shapes),
 	}
 	zero := []string{}
@@ -638,7 +725,22 @@ func c14Probe(r *Run, h *c14Hist) (string, string) {
 	if err != nil {
 		return "machinery", err.Error()
 	}
-	return c14Judge(h, conc, keys, res, fatal, nil)
+	var cold map[int]*simrt.CallResult
+	if fatal == "" && len(res) == len(conc.Steps) {
+		all := []int{}
+		for i := range conc.Steps {
+			if conc.Steps[i].Kind == "transpile" {
+				all = append(all, i)
+			}
+		}
+		if len(all) > 24 {
+			all = c14ColdSteps(conc)
+		}
+		if cold, err = c14RunCold(r.Env, conc, all); err != nil {
+			return "machinery", err.Error()
+		}
+	}
+	return c14Judge(h, conc, keys, res, fatal, cold, nil)
 }
 
 func c14Minimise(r *Run, h *c14Hist, v *Violation) *Violation {
@@ -699,7 +801,19 @@ func replayC14(r *Run, v *Violation) (bool, string, error) {
 		if err != nil {
 			return false, "", err
 		}
-		if cls, detail := c14Judge(&h, conc, keys, res, fatal, nil); cls != "" {
+		var cold map[int]*simrt.CallResult
+		if fatal == "" && len(res) == len(conc.Steps) {
+			all := []int{}
+			for i := range conc.Steps {
+				if conc.Steps[i].Kind == "transpile" {
+					all = append(all, i)
+				}
+			}
+			if cold, err = c14RunCold(r.Env, conc, all); err != nil {
+				return false, "", err
+			}
+		}
+		if cls, detail := c14Judge(&h, conc, keys, res, fatal, cold, nil); cls != "" {
 			return true, "class=" + cls + " " + detail, nil
 		}
 		if v.Uncontrolled {
